@@ -175,7 +175,7 @@ def marker_sessions(rep: Report, pids: tuple, n_random: int, n_law: int, selfche
     with mp.Pool(16) as pool:
         batches = pool.map(drive_marker.make_batch, jobs)
     sessions = []
-    for b in batches:
+    for b in [drive_marker.scripted_sessions()] + batches:          # the scripted regression sessions come first
         for s in b:
             s["sid"] = len(sessions) + 1
             sessions.append(s)
